@@ -25,7 +25,7 @@ ASSUMPTIONS = ["a fresh interpreter process with a private parser cache is the r
 
 METHODS = ["infer", "goto", "complete", "get_signatures", "get_references", "get_names"]
 OPS = ["insert_line", "delete_line", "replace_line", "dup_line", "insert_chars", "delete_chars", "indent", "dedent",
-       "paste", "undo", "switch_path", "edit_def", "edit_def", "append_call", "none"]
+       "paste", "undo", "switch_path", "edit_def", "edit_def", "append_call", "none", "multiline_call", "flip_callee"]
 SNIPPETS = ["value_x = 1", "def helper_new(arg_a, arg_b=2):\n    return arg_a", "class FreshClass:\n    attr_q = 'q'",
             "import os", "    pass", "result_y = helper_new(1)", "for item_z in range(3):\n    print(item_z)", "# comment", ""]
 
@@ -97,6 +97,16 @@ def apply_op(text, step, history):
             else:
                 params = re.sub(r"\b(\w+)\b", lambda mm: mm.group(1) + "_r" if mm.group(1) not in ("self", "cls", "None") and not mm.group(1).isdigit() else mm.group(1), params, count=1)
             lines[q] = m.group(1) + params + m.group(3)
+    elif op == "multiline_call":
+        # two callables with names of equal length and a call spread over two lines at the end of the buffer
+        if "def zz_aaa(" not in text:
+            lines += ["def zz_aaa(first, second):", "    return first", "def zz_bbb(other=1):", "    return other"]
+        lines += ["zz_aaa(", "    1,"]
+    elif op == "flip_callee":
+        for q in range(len(lines) - 1, -1, -1):
+            if lines[q] in ("zz_aaa(", "zz_bbb("):
+                lines[q] = "zz_bbb(" if lines[q] == "zz_aaa(" else "zz_aaa("
+                break
     elif op == "append_call":
         names = re.findall(r"^def (\w+)\(", text, re.M)
         if names:
@@ -195,6 +205,10 @@ def run_case(ctx, case):
                 extra = sample_queries(text, [["get_signatures", step["b"]], ["get_signatures", step["a"]], ["get_signatures", 0.999]])
                 must_compare.append(si)
                 qs = extra + qs
+            if step["op"] in ("multiline_call", "flip_callee") and text.rstrip("\n").endswith("    1,"):
+                tl = text.rstrip("\n").split("\n")
+                qs = [["get_signatures", len(tl), len(tl[-1])]] + qs
+                must_compare.append(si)
             answers = []
             parso_ok = True
             for q in qs:
@@ -216,7 +230,7 @@ def run_case(ctx, case):
             records.append((si, text, paths[cur_path], qs, answers, parso_ok))
             ctx.count()
     # choose steps to compare: the last, and one intermediate
-    pick = {len(records) - 1, int(case["check_at"] * len(records))} | set(must_compare[:2])
+    pick = {len(records) - 1, int(case["check_at"] * len(records))} | set(must_compare[:2]) | set(must_compare[-2:])
     jobs = []
     for idx in sorted(pick):
         si, t, p, qs, answers, parso_ok = records[idx]
@@ -250,7 +264,18 @@ def run_case(ctx, case):
                     ctx.cls("not-judged:internal-exception(C01)")
                     continue
                 last_ops = [s["op"] for s in case["steps"][max(0, si - 2):si + 1]]
-                devs.append(("history-dependent-answer:%s:%s" % (q[0], "with-path" if p else "no-path"),
+                shape = ""
+                if q[0] == "get_signatures":
+                    import re as _re
+                    mb = _re.search(r"'bracket_start', \[(\d+)", str(a) + str(b))
+                    if mb and int(mb.group(1)) < q[1]:
+                        shape = ":cursor-below-bracket-line"
+                if q[0] == "complete":
+                    import re as _re
+                    nm = lambda t: sorted(_re.findall(r"\('name', '([^']*)'\)", str(t)))
+                    if nm(a) == nm(b):
+                        shape = ":same-names-different-definition"
+                devs.append(("history-dependent-answer:%s:%s%s" % (q[0], "with-path" if p else "no-path", shape),
                              "step %d (%s) %s at %s: with history %s ; fresh process %s" % (si, last_ops, q[0], (q[1], q[2]), str(a)[:300], str(b)[:300])))
     ops = {s["op"] for s in case["steps"]}
     for o in ops:
